@@ -590,7 +590,7 @@ theorem listen (h : AccInv k) (fd b : Nat) : AccInv (k.listen fd b) := by
 
 theorem openSock (h : AccInv k) (a b : Bool) : AccInv (k.openSock a b).1 := h.insertSock rfl rfl
 
-theorem pollConnect (h : AccInv k) (fd : Nat) (peer : SockAddr) : AccInv (k.pollConnect fd peer).1 := by
+theorem pollConnect (cfg : Cfg) (h : AccInv k) (fd : Nat) (peer : SockAddr) : AccInv (k.pollConnect cfg fd peer).1 := by
   unfold Kernel.pollConnect
   split
   · exact h
@@ -737,7 +737,7 @@ theorem abortOrReap (cfg : Cfg) (h : AccInv k) (fd : Nat) (b : Bool) : AccInv (K
   dsimp only
   split <;> (split <;> first | exact h.remove _ | exact h.abortWith _ _ _)
 
-theorem acceptSyn (h : AccInv k) (lfd : Nat) (l r : SockAddr) (s : Seg) : AccInv (k.acceptSyn lfd l r s) := by
+theorem acceptSyn (cfg : Cfg) (h : AccInv k) (lfd : Nat) (l r : SockAddr) (s : Seg) : AccInv (k.acceptSyn cfg lfd l r s) := by
   unfold Kernel.acceptSyn
   split
   · exact h
@@ -852,7 +852,7 @@ theorem deliver (cfg : Cfg) (h : AccInv k) (p : Packet) : AccInv (Kernel.deliver
     · exact h.handleOnConnection _ _ _ _ _
     · split
       · split
-        · exact h.acceptSyn _ _ _ _
+        · exact h.acceptSyn cfg _ _ _ _
         · exact h.emitRst _ _ _
       · split
         · exact h.emitRst _ _ _
@@ -928,7 +928,7 @@ theorem retxPass1Step (cfg : Cfg) (acc : Kernel × List Nat × List Nat) (fd : N
     have h1 := h.setTcb_of (t.retxTick cfg.retxThreshold cfg.retxMax).1 ht (fun hs => Tcb.nsr_retxTick _ _ hs)
     split <;> exact h1
 
-theorem emitHandshake (h : AccInv k) (fd : Nat) : AccInv (k.emitHandshake fd) := by
+theorem emitHandshake (cfg : Cfg) (h : AccInv k) (fd : Nat) : AccInv (k.emitHandshake cfg fd) := by
   unfold Kernel.emitHandshake
   split
   · exact h
@@ -944,7 +944,7 @@ theorem checkRetx (cfg : Cfg) (h : AccInv k) : AccInv (Kernel.checkRetx cfg k) :
     · exact foldl_inv (P := fun acc : Kernel × List Nat × List Nat => AccInv acc.1) (Kernel.retxPass1Step cfg)
         (k.retxCands cfg) (k, [], []) h (fun b a hb => AccInv.retxPass1Step cfg b a hb)
     · intro b fd hb
-      exact hb.emitHandshake fd
+      exact hb.emitHandshake cfg fd
   · intro b fd hb
     exact hb.abortOrReap _ _ _
 
